@@ -182,12 +182,8 @@ class HplExpression(HplAstObject):
                     scoped[obj.variable] = token
                 obj.condition.type_check_references(this_msg, scoped)
             elif obj.is_accessor:
+                # checks the chain and the references inside its indices
                 obj.type_check_references(this_msg, variables)
-                # the chain itself has been checked; references inside its indices have not
-                while obj.is_accessor:
-                    if obj.is_indexed:
-                        stack.append(obj.index)
-                    obj = obj.object
             else:
                 stack.extend(reversed(obj.children()))
 
@@ -1588,6 +1584,9 @@ class HplDataAccess(HplExpression):
             t = expr._get_next_token(t)
             self._type_check(expr, t.type)
             # expr.message_type = t
+            if expr.is_indexed:
+                # references inside the index expression
+                HplExpression.type_check_references(expr.index, this_msg, variables)
 
     def _get_next_token(self, token: TypeToken) -> TypeToken:
         raise NotImplementedError()
